@@ -14,6 +14,7 @@ import (
 type CheckCase struct {
 	Cfg  CheckCfg `json:"cfg"`
 	Prog *Prog    `json:"prog"`
+	Long bool     `json:"long,omitempty"` // C07: a run of tens of thousands of test cases before the first falsified one
 }
 
 // CaseRun is everything observed when running a CheckCase.
